@@ -25,7 +25,7 @@ import (
 // whitelist: function keys (Recv.Name or Name) per package short name
 var fnWhitelist = map[string][]string{
 	"V2": {
-		"ValidationResults.Add", "ValidationResults.AddError", "ValidationResults.AddTimeCheck", "ValidationResults.AddWarning",
+		"RenamingSubject.ToSubject", "ValidationResults.Add", "ValidationResults.AddError", "ValidationResults.AddTimeCheck", "ValidationResults.AddWarning",
 		"ValidationResults.IsBlocking", "ValidationResults.IsEmpty",
 		"Subject.Validate", "Subject.countTokenWildcards", "Subject.HasWildCards", "Subject.IsContainedIn",
 		"StringList.Contains", "StringList.Add", "StringList.Remove",
@@ -116,6 +116,7 @@ type fnCtx struct {
 	ptrInner map[string]string     // nilable pointers reached through a computation: the `Option T` value inside a do block
 	closures map[types.Object]bool // local function literals (single-return, pure)
 	nilVars  map[types.Object]bool // local / range variables holding nilable pointers
+	bldrVars map[types.Object]bool   // local strings.Builder values: the text written so far
 	hashVars map[types.Object]string // local hash accumulators (h := sha256.New()): the opaque digest applied by Sum(nil)
 }
 
@@ -254,7 +255,7 @@ var nilableElems = map[string]bool{"Export": true, "Import": true}
 // opaqueFnsV1: additionally opaque in the v1compat package only
 var opaqueFnsV1 = map[string]bool{"ClaimsData.Encode": true}
 
-var opaqueFns = map[string]bool{"UserClaims.HasEmptyPermissions": true, "parseClaims": true, "ClaimsData.encode": true, "decodeString": true, "DecodeActivationClaims": true, "RenamingSubject.ToSubject": true}
+var opaqueFns = map[string]bool{"UserClaims.HasEmptyPermissions": true, "parseClaims": true, "ClaimsData.encode": true, "decodeString": true, "DecodeActivationClaims": true}
 
 // foreignOpaque: functions of other packages that translated code may call; each becomes a field of `Opq`
 // (name, Lean type of the field, and how a two-value result is read)
@@ -463,6 +464,12 @@ func (g *fnGen) nilCompared(fd *ast.FuncDecl, params []*types.Var, hasRecv bool)
 func (c *fnCtx) varType(o types.Object) string {
 	if unitPtr[o] {
 		return "(Option Unit)"
+	}
+	if c.bldrVars[o] {
+		return "Str"
+	}
+	if c.hashVars[o] != "" {
+		return "(List Int)"
 	}
 	lt := c.g.leanType(o.Type())
 	if _, ok := c.g.ifaceOf(o.Type()); ok {
@@ -693,6 +700,14 @@ func (c *fnCtx) written(n ast.Node) map[types.Object]bool {
 			if id, ok := x.Fun.(*ast.Ident); ok && id.Name == "delete" && len(x.Args) == 2 {
 				if o := c.rootVar(x.Args[0]); o != nil {
 					w[o] = true
+				}
+			}
+			// writes into a local accumulator (strings.Builder / hash): b.WriteString(s), h.Write(p)
+			if se, ok := x.Fun.(*ast.SelectorExpr); ok && (se.Sel.Name == "WriteString" || se.Sel.Name == "Write") {
+				if id, ok := se.X.(*ast.Ident); ok {
+					if o := c.g.p.TypesInfo.Uses[id]; o != nil && (c.bldrVars[o] || c.hashVars[o] != "") {
+						w[o] = true
+					}
 				}
 			}
 			if fi := c.g.callee(x); fi != nil {
@@ -1481,6 +1496,11 @@ func (c *fnCtx) call(x *ast.CallExpr) ex {
 			}
 			return ex{"([] : Str)", false} // message text is not modelled
 		}
+		if id, ok := se.X.(*ast.Ident); ok && se.Sel.Name == "String" && len(x.Args) == 0 {
+			if o := c.g.p.TypesInfo.Uses[id]; o != nil && c.bldrVars[o] {
+				return ex{c.nameOf(o), false}
+			}
+		}
 		// h.Sum(nil) on a hash accumulator; base32.StdEncoding.EncodeToString(x)
 		if id, ok := se.X.(*ast.Ident); ok && se.Sel.Name == "Sum" && len(x.Args) == 1 && c.isNilExpr(x.Args[0]) {
 			if o := c.g.p.TypesInfo.Uses[id]; o != nil && c.hashVars[o] != "" {
@@ -2050,6 +2070,14 @@ func (c *fnCtx) stmt(b *block, s ast.Stmt) {
 		if !ok {
 			unsup("expression statement")
 		}
+		if se, ok := call.Fun.(*ast.SelectorExpr); ok && se.Sel.Name == "WriteString" && len(call.Args) == 1 {
+			if id, ok := se.X.(*ast.Ident); ok {
+				if o := c.g.p.TypesInfo.Uses[id]; o != nil && c.bldrVars[o] {
+					c.assignVar(b, o, "("+c.nameOf(o)+" ++ "+c.expr(call.Args[0]).bind()+")")
+					return
+				}
+			}
+		}
 		if se, ok := call.Fun.(*ast.SelectorExpr); ok && se.Sel.Name == "Write" && len(call.Args) == 1 {
 			if id, ok := se.X.(*ast.Ident); ok {
 				if o := c.g.p.TypesInfo.Uses[id]; o != nil && c.hashVars[o] != "" {
@@ -2437,6 +2465,21 @@ func (c *fnCtx) assign(b *block, x *ast.AssignStmt) {
 				}
 				app := c.callFn(call, fi)
 				c.assignVar(b, o, "(← "+app.bind()+")")
+				return
+			}
+		}
+	}
+	// bldr := strings.Builder{}: a string builder is the text written so far
+	if len(x.Lhs) == 1 && len(x.Rhs) == 1 && x.Tok == token.DEFINE {
+		if cl, ok := x.Rhs[0].(*ast.CompositeLit); ok && len(cl.Elts) == 0 && cl.Type != nil && types.ExprString(cl.Type) == "strings.Builder" {
+			if id, ok := x.Lhs[0].(*ast.Ident); ok {
+				o := c.g.p.TypesInfo.Defs[id]
+				if c.bldrVars == nil {
+					c.bldrVars = map[types.Object]bool{}
+				}
+				c.bldrVars[o] = true
+				c.declared[o] = true
+				b.add("let mut %s : Str := ([] : Str)", c.nameOf(o))
 				return
 			}
 		}
@@ -2883,7 +2926,7 @@ func (c *fnCtx) rangeStmt(b *block, x *ast.RangeStmt) {
 	loopName := fmt.Sprintf("%s.loop%d", c.fi.leanName, c.loopN)
 
 	// ---- body definition
-	sub := &fnCtx{g: c.g, fi: c.fi, names: c.names, taken: c.taken, loopN: c.loopN, inLoop: true, state: state, tmpN: c.tmpN, rawPtr: c.rawPtr, nilVars: c.nilVars, ptrInner: c.ptrInner, closures: c.closures,
+	sub := &fnCtx{g: c.g, fi: c.fi, names: c.names, taken: c.taken, loopN: c.loopN, inLoop: true, state: state, tmpN: c.tmpN, rawPtr: c.rawPtr, nilVars: c.nilVars, bldrVars: c.bldrVars, hashVars: c.hashVars, ptrInner: c.ptrInner, closures: c.closures,
 		declared: map[types.Object]bool{}}
 	var params []string
 	for _, o := range captured {
@@ -2905,7 +2948,7 @@ func (c *fnCtx) rangeStmt(b *block, x *ast.RangeStmt) {
 		valO = c.g.p.TypesInfo.Defs[id]
 		valN = c.nameOf(valO)
 	}
-	stT := (&fnCtx{g: c.g, fi: c.fi, nilVars: c.nilVars, state: state}).stateType()
+	stT := (&fnCtx{g: c.g, fi: c.fi, nilVars: c.nilVars, bldrVars: c.bldrVars, hashVars: c.hashVars, state: state}).stateType()
 	body := &block{ind: 1}
 	wBody := w
 	if isMap {
